@@ -1,11 +1,11 @@
 #!/usr/bin/env python3-vt
-"""Developer runner: python3-vt dev.py <contracts module> [function-suffix ...]"""
+"""Developer runner: python3-vt dev.py <contracts modules> [function-suffix ...]   (env MODEL=1 prints counter-models)"""
 import sys, importlib, time, glob, os, faulthandler
 faulthandler.dump_traceback_later(int(os.environ.get("DEV_TIMEOUT", "100")), exit=True)
 sys.path.insert(0, os.path.dirname(os.path.abspath(__file__)))
 from pyvc.world import World
 from pyvc.engine import Interp
-from pyvc import dsl, verify
+from pyvc import dsl, verify, par
 import z3
 
 def main():
@@ -20,19 +20,37 @@ def main():
     I = Interp(w, dsl.REG)
     tot = 0; bad = 0
     for q, c in dsl.REG.contracts.items():
-        if c.mode != "verify" or (filt and not any(f in q for f in filt)):
+        if c.mode != "verify" or (filt and not any(q.endswith(f) or (f.endswith("*") and f[:-1] in q) for f in filt)):
             continue
         t0 = time.time()
         r = verify.verify_function(I, q, c.prop or "C??")
-        print(f"== {q}: {r.status} {r.reason} paths={r.paths} exits={r.exits} obligs={len(r.obligs)} ({time.time()-t0:.2f}s)")
-        for ob in r.obligs:
-            from pyvc import par
-            rr = par.fork_call(lambda ob=ob: verify.discharge(ob), 20)
-            d = rr[1] if rr[0] == "ok" else {"verdict": "unknown", "reason": rr[0]}
+        print(f"== {q}: {r.status} {r.reason} paths={r.paths} exits={r.exits} obligs={len(r.obligs)} gen={time.time()-t0:.1f}s feas={I.stats.get('feas_time',0):.1f}s merges={I.stats.get('merges',0)}", flush=True)
+        def one(ob):
+            rr = par.fork_call(lambda: verify.discharge(ob, int(os.environ.get("DEV_SOLVER_MS", "10000"))), 40)
+            return rr[1] if rr[0] == "ok" else {"verdict": "unknown", "reason": rr[0]}
+        t1 = time.time()
+        res = par.fork_map(one, r.obligs, 14)
+        by = {}
+        for ob, rr in zip(r.obligs, res):
+            d = rr[1] if rr[0] == "ok" else {"verdict": "unknown", "reason": str(rr[1])[:200]}
+            e = by.setdefault(ob.name, {"n": 0, "unsat": 0, "sat": [], "unknown": []})
+            e["n"] += 1
             tot += 1
-            if d["verdict"] != "unsat":
+            if d["verdict"] == "unsat":
+                e["unsat"] += 1
+            else:
                 bad += 1
-                print("   ", ob.name, d["verdict"], d.get("reason", ""), d.get("model"), "trace:", ob.trace[-6:])
+                e[d["verdict"] if d["verdict"] in ("sat", "unknown") else "unknown"].append((ob, d))
+        print(f"   discharge {time.time()-t1:.1f}s")
+        for name, e in by.items():
+            if e["unsat"] == e["n"]:
+                continue
+            print(f"   {name}: {e['unsat']}/{e['n']} ok, {len(e['sat'])} sat, {len(e['unknown'])} unknown")
+            for ob, d in (e["sat"][:int(os.environ.get('SHOW', '2'))] + e["unknown"][:1]):
+                print("      ", d["verdict"], d.get("reason", ""), "trace:", ob.trace[-int(os.environ.get('TR', '9')):])
+                if os.environ.get("MODEL"):
+                    print("         model:", str(d.get("model"))[:1500])
     print(f"total obligations {tot}, not discharged {bad}; feas checks {I.stats['feas_checks']}")
-    print("notes:", sorted(I.stats["builtins_used"]))
+    if os.environ.get("NOTES"):
+        print("notes:", sorted(I.stats["builtins_used"]))
 main()
